@@ -13,6 +13,25 @@ ALIASES = {'parser': 'syntax', 'verifier': 'syntax', 'analyzer': 'algorithmic',
 COMPLIMENT = 'Compliment'
 
 
+class _Req:
+    """A feedback as the reference model sees it: what the caller *asked for* where the descriptor says so
+    (`_verif_req`, attached by the harness), the object's public attribute otherwise.  The resolver must act on
+    the requested valence/score/flags even if the constructor silently recorded something else."""
+    __slots__ = ('_f', '_r')
+
+    def __init__(self, f):
+        self._f = f
+        self._r = getattr(f, '_verif_req', None) or {}
+
+    def __getattr__(self, name):
+        if name in ('valence', 'score', 'unscored', 'muted', 'kind', 'category', 'priority', 'correct') and name in self._r:
+            return self._r[name]
+        return getattr(self._f, name)
+
+    def __bool__(self):
+        return bool(self._f)
+
+
 def rank(fb):
     """(base rank, within-rank shift) or None when the statement does not define it."""
     cat = fb.category
@@ -39,7 +58,8 @@ def suppressed(fb, sups):
     for (cat, label, fields) in sups:
         if cat is not None:
             c = ALIASES.get(cat.lower(), cat.lower())
-            if (fb.category or '').lower() != c:
+            # a feedback without a category is ranked as 'uncategorized' (C01 statement) and is suppressed as such
+            if (fb.category or 'uncategorized').lower() != c:
                 continue
             if label is not True and (fb.label or '').lower() != label.lower():
                 continue
@@ -73,7 +93,7 @@ def parse_score(score):
 
 def expected_score(fbs, sups):
     total = Fraction(0)
-    for f in fbs:
+    for f in (x if isinstance(x, _Req) else _Req(x) for x in fbs):
         if suppressed(f, sups) or f.unscored or f.score is None:
             continue
         v = parse_score(f.score)
@@ -92,6 +112,7 @@ def near_rounding_boundary(total):
 def reference(fbs, sups):
     """fbs in creation order.  Returns dict(label,title,message,category,correct,score,
     default) or None when the ranking is not defined by the statement."""
+    fbs = [_Req(f) for f in fbs]
     elig = [(i, f) for i, f in enumerate(fbs) if eligible(f, sups)]
     correct = all(bool(f.correct) for _, f in elig)
     if not elig:
